@@ -174,6 +174,22 @@ class Futures(Timers):
         def s_identity(I, a, pth, c):
             return a[0]
 
+        W.driver_polls = []
+
+        def s_driver_poll(I, a, pth, c):
+            # the driver's wait: records the timeout it was given; returns after an arbitrary while with
+            # Ok, or with the two errors the runtime treats as "nothing happened" (other errors panic by design)
+            W.driver_polls.append(a[1])
+            W.order.append("driver.poll")
+            k = pth.choose(3, "driver.poll result")
+            if k == 0:
+                return EnumV(0, [Cell(UNIT)])
+            return EnumV(1, [Cell(("io-error", 22 if k == 1 else 35))])
+
+        def s_err_kind(I, a, pth, c):
+            e = a[0].cell.v if isinstance(a[0], Ref) else a[0]
+            return EnumV(e[1])
+
         def s_inner_poll(I, a, pth, c):
             W.inner_polls += 1
             W.order.append("inner")
@@ -185,10 +201,11 @@ class Futures(Timers):
         extra = [
             (r"^Pin::<.*>::new(?:_unchecked)?$", s_pin_new), (r"^Pin::<.*>::get_unchecked_mut$", s_pin_get),
             (r"^<Pin<.*> as Deref(?:Mut)?>::deref(?:_mut)?$", s_pin_get),
-            (r"^<Rc<RefCell<TimerRuntime>> as Deref>::deref$", s_rc_deref),
-            (r"^<Rc<RefCell<TimerRuntime>> as Clone>::clone$", s_rc_clone),
-            (r"^RefCell::<TimerRuntime>::borrow_mut$", s_borrow_mut),
-            (r"^<RefMut<'_, TimerRuntime> as DerefMut>::deref_mut$", s_refmut_deref),
+            (r"^<Rc<RefCell<\w+>> as Deref>::deref$", s_rc_deref),
+            (r"^<Rc<RefCell<\w+>> as Clone>::clone$", s_rc_clone),
+            (r"^RefCell::<\w+>::borrow(?:_mut)?$", s_borrow_mut),
+            (r"^<Ref(?:Mut)?<'_, \w+> as Deref(?:Mut)?>::deref(?:_mut)?$", s_refmut_deref),
+            (r"^Proactor::poll$", s_driver_poll), (r"^std::io::Error::kind$", s_err_kind),
             (r"^Runtime::with_current::<", s_with_current),
             (r"^<Option<TimerKey> as Try>::branch$", s_try_branch),
             (r"as FromResidual<Option<Infallible>>>::from_residual$", s_from_residual),
@@ -452,4 +469,63 @@ class Futures(Timers):
         obs += self.invariant(rt)
         return obs
 
-    FCHECKS = ["sleep_new", "sleep_poll", "timer_drop", "timeout_poll", "interval_tick"]
+    def check_runtime_poll(self, p):
+        """Runtime::poll = current_timeout() -> min_timeout(); poll_with(timeout): driver.poll(timeout), then wake()"""
+        I, W, rt, m, gen, rc = self.mkf(p, wakers=True)
+        before = m.snapshot()
+        poll_fn = [f for k, f in self.fns.items() if "compio-runtime/src/lib.rs" in k and k.endswith("::poll")
+                   and re.search(r"\(_1: &Runtime\) -> \(\)", f.sig)]
+        pw = [f for k, f in self.fns.items() if "compio-runtime/src/lib.rs" in k and k.endswith("::poll_with")]
+        if len(poll_fn) != 1 or len(pw) != 1:
+            raise Unsupported("cannot locate Runtime::poll / poll_with")
+        # Runtime fields by type, from poll_with's own projections
+        idx = {}
+        rt_fns = [f for k, f in self.fns.items() if "compio-runtime/src/lib.rs" in k and re.search(r"_1: &Runtime\b", f.sig)]
+        for stmts in [b for f in rt_fns for b in f.blocks.values()]:
+            for st in stmts:
+                for mm in re.finditer(r"\(\(\*_1\)\.(\d+): ((?:[^()]|\([^()]*\))+)\)", st):
+                    if "Proactor" in mm.group(2):
+                        idx["driver"] = int(mm.group(1))
+                    if "TimerRuntime" in mm.group(2):
+                        idx["timers"] = int(mm.group(1))
+        if set(idx) != {"driver", "timers"}:
+            raise Unsupported("cannot locate Runtime.driver / Runtime.timer_runtime")
+        drv_rc = RcV(Cell(("proactor",)))
+
+        class RT:
+            def field_cell(self_, i):
+                if i == idx["driver"]:
+                    return Cell(drv_rc)
+                if i == idx["timers"]:
+                    return Cell(rc)
+                return Cell(("opaque", "Runtime-field-%d" % i))
+        I.run_to_end(I.call_fn(poll_fn[0], [Ref(Cell(RT()))], p))
+        self.done(I)
+        after = rt.f[1].v
+        obs = [("the driver is polled exactly once per Runtime::poll", z3.BoolVal(len(W.driver_polls) == 1)),
+               ("RefCell borrows released", z3.BoolVal(not rc.borrowed and not drv_rc.borrowed))]
+        if len(W.driver_polls) != 1:
+            return obs
+        t = W.driver_polls[0]
+        anyp = z3.Or(*[b["p"] for b in before])
+        obs.append(("an idle runtime waits without limit iff no timer is pending", z3.BoolVal(t.variant == 0) == z3.Not(anyp)))
+        now0 = W.nows[0] if W.nows else None
+        if t.variant == 1 and now0 is not None:
+            d = t.fields[0].v
+            dist = [z3.If(z3.UGT(b["d"], now0), b["d"] - now0, z3.BitVecVal(0, 64)) for b in before]
+            for i, b in enumerate(before):
+                obs.append(("idle sleep not longer than the distance to timer %d" % i, z3.Implies(b["p"], z3.ULE(d, dist[i]))))
+        # after the driver returned (Ok, TimedOut or Interrupted alike) the wheel is processed
+        woke = [e for e in W.events if e[0] == "wake"]
+        if z3.is_true(z3.simplify(anyp)) or len(W.nows) >= 2:
+            now1 = W.nows[-1]
+            for i, b in enumerate(before):
+                k = (b["d"], b["g"])
+                obs.append(("after the wait, timer %d is still pending iff its deadline lies in the future" % i,
+                            z3.Implies(b["p"], after.contains(k) == z3.UGT(b["d"], now1))))
+        obs.append(("the wheel is processed after the wait whenever a timer was pending",
+                    z3.Implies(anyp, z3.BoolVal(len(W.nows) >= 2))))
+        obs += self.invariant(rt)
+        return obs
+
+    FCHECKS = ["sleep_new", "sleep_poll", "timer_drop", "timeout_poll", "interval_tick", "runtime_poll"]
